@@ -69,7 +69,7 @@ Definition setfile (f : bits) (length offset : option Z) : res store :=
     | None => if offset >? st_len temp then Err ValueError
               else do b <- st_getslice_msb0 temp (Some offset) None; Ok (mkstore b None)
     | Some l => do b <- st_getslice_msb0 temp (Some offset) (Some (offset + l));
-                if zlen b =? l then Ok (mkstore b None) else Err ValueError
+                if (zlen b =? l) && negb (offset >? st_len temp) then Ok (mkstore b None) else Err ValueError
     end.
 
 (* ---------------- Bits._setbytes_with_truncation(data, length, offset); data as bits (8 per byte) ---------------- *)
